@@ -330,9 +330,9 @@ func fault(w *vt.Writer, t *dp.Topo, st *stats) {
 	}
 	stride := 1
 	if !vt.Thorough() {
-		stride = 4
+		stride = 9
 		if t.Name == "T1" {
-			stride = 2
+			stride = 4
 		}
 	}
 	k := 0
@@ -413,7 +413,10 @@ func alert(w *vt.Writer, t *dp.Topo, st *stats) {
 	w.Emit(map[string]any{"ev": "topo", "t": t.JSON()})
 	stride := 1
 	if !vt.Thorough() {
-		stride = 3
+		stride = 7
+		if t.Name == "T1" {
+			stride = 3
+		}
 	}
 	k := 0
 	for _, pr := range allPaths(t, c) {
